@@ -189,7 +189,7 @@ void h_rel(void) {
     uint8_t *rx2 = make_frame(in.frame, g_cfgA.mtu);
 #if REL_MODE == 2
     /* freshly started responder: the record is created by the core on the first frame */
-    rel_cached = false;
+    rel_cached = false; rel_st = 0;          /* no record yet: a fetched icon is identified by the port's last hand-out */
     parseFrame(rx2, &g_cfgA);
     lltd_iface_state *s2 = find_state(&g_cfgA);
     V_ASSERT(s2 != 0, "C09: a fresh responder creates its record on the first frame");
